@@ -42,8 +42,8 @@ func TestReplay(t *testing.T) {
 }
 
 func init() {
-	vkit.Register("buffer", vkit.N{Quick: 20000, Thorough: 400000}, genBuffer, runBuffer)
-	vkit.Register("sync", vkit.N{Quick: 160, Thorough: 1500}, genSync, runSync)
+	vkit.Register("buffer", vkit.N{Quick: 20000, Thorough: 1000000}, genBuffer, runBuffer)
+	vkit.Register("sync", vkit.N{Quick: 160, Thorough: 6000}, genSync, runSync)
 }
 
 // ---------------------------------------------------------------- (a) buffer: case data
@@ -338,6 +338,7 @@ func TestFinding_reset_not_persisted(t *testing.T) {
 // TestFinding_fullsync_leaders_not_reset: restarted leader with 250 regions that all have
 // leaders, fresh follower: full sync in 3 batches.
 func TestFinding_fullsync_leaders_not_reset(t *testing.T) {
+	defer cleanups.Wait() // fixtures are torn down in the background
 	c := SCase{HistIdx: 1000, RegionStorage: true}
 	for i := 0; i < 250; i++ {
 		c.Regions = append(c.Regions, Reg{Store: uint64(i%6) + 1, NPeers: 3, Leader: i % 3,
@@ -363,6 +364,7 @@ func TestFinding_fullsync_leaders_not_reset(t *testing.T) {
 // (use-region-storage=false), synchronised, then StopSyncWithLeader/StartSyncWithLeader
 // (what a follower does whenever the PD leader changes).
 func TestFinding_restart_sync_reload_drops_leaders(t *testing.T) {
+	defer cleanups.Wait() // fixtures are torn down in the background
 	c := SCase{HistIdx: 1000, RegionStorage: false, Reconnect: true}
 	for i := 0; i < 5; i++ {
 		c.Regions = append(c.Regions, Reg{Store: uint64(i%6) + 1, NPeers: 3, Leader: i % 3,
@@ -390,6 +392,7 @@ func TestFinding_restart_sync_reload_drops_leaders(t *testing.T) {
 // removes "the failed stream" by name and so unbinds the new one. Driven with in-memory
 // streams (no network) so that the interleaving is exact.
 func TestFinding_broadcast_unbinds_reconnected_stream(t *testing.T) {
+	defer cleanups.Wait() // fixtures are torn down in the background
 	reproduced, detail, ok := probeUnbind()
 	if !ok {
 		t.Logf("probe inconclusive: %s", detail)
